@@ -11,6 +11,7 @@ import z3
 
 from . import common, e3, c05
 from .common import log
+from . import probes
 from .mir import engine as mir_engine, exec as mx, cmpcfg, streams
 from .mir.cmpcfg import FieldAtoms
 
@@ -154,7 +155,7 @@ def check_helper(eng, obl, out):
         if ok and call and takes_ref_t:
             obl.discharged += 1
         else:
-            out.violation("eq-checker-helper", "-", "build_eq_checker does not emit `fn f<T: Eq + ..>(_: &T)` applied to the component; emitted tokens: %s" % ts)
+            probes.structural(out, "eq-checker-helper", "build_eq_checker does not emit `fn f<T: Eq + ..>(_: &T)` applied to the component; emitted tokens: %s" % ts, 'C17.helper')
         obl.samples.append({"function": "build_eq_checker", "emitted_tokens": ts})
     # Template::build_eq_checker applies the key template to the component and passes the result on
     ex2 = eng.executor(opaque_local={"Template::apply", "build_eq_checker"}, trace={"Template::apply", "build_eq_checker"})
@@ -167,7 +168,7 @@ def check_helper(eng, obl, out):
     if good:
         obl.discharged += 1
     else:
-        out.violation("template-eq-checker", "-", "Template::build_eq_checker does not assert the key expression applied to the field: %s" % [r.events for r in res2][:1])
+        probes.structural(out, "template-eq-checker", "Template::build_eq_checker does not assert the key expression applied to the field: %s" % [r.events for r in res2][:1], 'C17.helper')
 
 
 def check_placement(eng, obl, out):
@@ -193,12 +194,12 @@ def check_placement(eng, obl, out):
                 if ok and fn_item and body_marks:
                     obl.discharged += 1
                 else:
-                    out.violation("eq-assertion-placement", "-", "for Eq the assertion body is not emitted inside a type-checked function item: %s" % ts[:600])
+                    probes.structural(out, "eq-assertion-placement", "for Eq the assertion body is not emitted inside a type-checked function item: %s" % ts[:600], 'C17.placement')
             else:
                 if body_marks:
                     obl.discharged += 1
                 else:
-                    out.violation("body-placement|" + op, "-", "the method body of %s is not interpolated into the generated impl: %s" % (op, ts[:400]))
+                    probes.structural(out, "body-placement|" + op, "the method body of %s is not interpolated into the generated impl: %s" % (op, ts[:400]), 'C17.placement')
 
 
 FORMS = ("plain", "generic", "tuple")
